@@ -573,7 +573,7 @@ def run(chk):
     # again only if eviction and revival keep their records coupled (C13.R4)
     from . import rules_C13
 
-    report.include_rules(chk, r4, rules_C13, ("C13.R4",), "a server that was taken out of rotation comes back (and only then leaves the dead list): placement after recovery is that of a fresh client")
+    report.include_rules(chk, r4, rules_C13, ("C13.R4",) + (("C13.R7",) if getattr(chk, "included_for", None) is None else ()), "a server that was taken out of rotation comes back (and only then leaves the dead list): placement after recovery is that of a fresh client")
     # the published rule names the hash: placement is the argmax of MurmurHash3_x86_32 scores, so a murmur3_32 that
     # differs from it (for long strings, for some bytes) moves keys away from where other clients of the cluster put them
     from . import rules_C14
